@@ -2,7 +2,8 @@
 
 (A) TLC: MC_Planted - the discrete lemma: exact copy + seed within maxD of the true diagonal + spacing > 2*maxD
     => the composed Aligner.align model returns exactly the true matching (both strands, 1-2 seeds).
-    The FFT cross-correlation that produces the seeds is numerical and is NOT modelled (DESIGN.md section 6).
+    Since round 9 the seeding and refinement stages are modelled too (Seeding.tla: exact Dice / count correlation, the peak
+    selection rules; MC_Seeding, MC_Refine) and the real getInitialAlignment / refine are replayed against it (props/seeding.py).
 (B/C) decides the property: planted queries in the quantifier's domain through the real pipeline with default
     parameters in every output mode; TLC (Trace_Planted) checks reference, strand, exact pairs, |offset| <= 200 bp
     and HitEnum = nM.
@@ -197,12 +198,12 @@ def run(ctx: Ctx):
                 "from either end, on either strand, with coordinate offsets 0..56789 bp and trailing lengths 1 bp..120 kb; "
                 "default parameters; the five output modes in turn. non-trivial = distinct planted query (every one is: "
                 "its placement depends on the numerical correlation)")
-    ctx.assumptions = ["the seeds are produced by FFT cross-correlation and scipy.signal.find_peaks, which TLA+ does not "
-                       "model: for that half this check is an exploration (sampled inputs), not an exhaustion; TLC "
-                       "model-checks the discrete lemma (MC_Planted) and judges every observed record"]
+    ctx.assumptions = ["the FFT itself is not modelled: Seeding.tla computes the correlations exactly (rationals / integer counts) "
+                       "and every replayed real call is compared with the exact values to 2e-5; end to end the check is an "
+                       "exploration (sampled inputs), the lemmas (MC_Planted, MC_Seeding, MC_Refine) are exhaustive within bounds"]
     mc = tlc.run_tlc("MC_Planted", "MC_Planted.cfg", ctx.workdir, workers=6, heap_gb=8)
     ctx.add_model("MC_Planted", mc)
-    ctx.notes["what_is_exhaustive"] = "only the discrete lemma (MC_Planted); the numerical seeding is sampled"
+    ctx.notes["what_is_exhaustive"] = "the lemmas: MC_Planted (placement), MC_Seeding / MC_Refine (an exact locus is seeded / refined); the end-to-end runs are sampled"
     # the seeding half, now a model of its own: MC_Seeding (a planted lattice copy has sample 1 = the global maximum at
     # its true offset, and an exact locus that is a strict maximum is always seeded) + the real stage replayed by TLC
     seeding.run_part(ctx, "C06", model=True)
